@@ -21,24 +21,28 @@ def natChars (n : Nat) : Str := (toString n).toList
 /-! ## MaskStringLiterals -/
 
 /-- body of a quoted token after its opening quote: (consumed incl. closing quote, remaining).
-`prev` = the byte before the current one (the `sql[i-1] == '\\'` test). -/
-def scanQ (q : Char) : Nat → Char → Str → Str × Str
-  | 0, _, s => ([], s)
-  | _, _, [] => ([], [])
-  | n + 1, prev, c :: cs =>
-    if c == q then
+A doubled quote is an escape; a backslash escapes the NEXT byte only when `esc` (E'…' strings, `scanQuoted`);
+plain '…' literals and "…" identifiers end at the first undoubled quote (8f4fe38). -/
+def scanQ (q : Char) (esc : Bool) : Nat → Str → Str × Str
+  | 0, s => ([], s)
+  | _, [] => ([], [])
+  | n + 1, c :: cs =>
+    if esc && c == '\\' then
+      match cs with
+      | d :: ds =>
+        let (a, b) := scanQ q esc n ds
+        (c :: d :: a, b)
+      | [] => ([c], [])
+    else if c == q then
       match cs with
       | d :: ds =>
         if d == q then
-          let (a, b) := scanQ q n d ds
+          let (a, b) := scanQ q esc n ds
           (c :: d :: a, b)
-        else if prev == '\\' then
-          let (a, b) := scanQ q n c cs
-          (c :: a, b)
         else ([c], cs)
       | [] => ([c], [])
     else
-      let (a, b) := scanQ q n c cs
+      let (a, b) := scanQ q esc n cs
       (c :: a, b)
 
 /-- `dollarQuoteTag` on the text after the `$` -/
@@ -46,7 +50,7 @@ def dollarTag : Bool → Str → Str → Option Str
   | _, _, [] => none
   | first, acc, c :: cs =>
     if c == '$' then some acc.reverse
-    else if c.isAlpha || c == '_' || (c.isDigit && !first) then dollarTag false (c :: acc) cs
+    else if c.isAlpha || c == '_' || c.toNat ≥ 128 || (c.isDigit && !first) then dollarTag false (c :: acc) cs
     else none
 
 /-- split at the first occurrence of `needle`: (before, after) -/
@@ -83,6 +87,23 @@ def MaskSt.pushIdent (st : MaskSt) (orig : Str) : MaskSt :=
 
 def lastOr (d : Char) (s : Str) : Char := s.getLast?.getD d
 
+/-- the rest of a (nesting) block comment after its opener: (body incl. the closing `*/`, remaining) -/
+def blockComment : Nat → Nat → Str → Str × Str
+  | 0, _, s => ([], s)
+  | _, _, [] => ([], [])
+  | n + 1, depth, c :: cs =>
+    if c == '/' && headIs '*' cs then
+      let (a, b) := blockComment n (depth + 1) (cs.drop 1)
+      (c :: '*' :: a, b)
+    else if c == '*' && headIs '/' cs then
+      if depth ≤ 1 then (['*', '/'], cs.drop 1)
+      else
+        let (a, b) := blockComment n (depth - 1) (cs.drop 1)
+        (c :: '/' :: a, b)
+    else
+      let (a, b) := blockComment n depth cs
+      (c :: a, b)
+
 def maskLoop : Nat → Char → Str → MaskSt → MaskSt
   | 0, _, _, st => st
   | _, _, [], st => st
@@ -99,15 +120,23 @@ def maskLoop : Nat → Char → Str → MaskSt → MaskSt
       | none => st.pushStr (c :: cs)
     | none =>
       if (c == 'e' || c == 'E') && headIs '\'' cs && !(isWordC prev) then
-        let (body, after) := scanQ '\'' (cs.length + 1) '\'' (cs.drop 1)
+        let (body, after) := scanQ '\'' true (cs.length + 1) (cs.drop 1)
         let orig := c :: '\'' :: body
         maskLoop n (lastOr prev orig) after (st.pushStr orig)
+      else if c == '-' && headIs '-' cs then
+        -- comments are copied through verbatim (64dff5c): a quote inside a comment opens nothing
+        let body := (c :: cs).takeWhile (· != '\n')
+        maskLoop n (lastOr prev body) ((c :: cs).dropWhile (· != '\n')) { st with out := body.reverse ++ st.out }
+      else if c == '/' && headIs '*' cs then
+        let (body, after) := blockComment (cs.length + 1) 1 (cs.drop 1)
+        let whole := c :: '*' :: body
+        maskLoop n (lastOr prev whole) after { st with out := whole.reverse ++ st.out }
       else if c == '\'' then
-        let (body, after) := scanQ '\'' (cs.length + 1) c cs
+        let (body, after) := scanQ '\'' false (cs.length + 1) cs
         let orig := c :: body
         maskLoop n (lastOr prev orig) after (st.pushStr orig)
       else if c == '"' then
-        let (body, after) := scanQ '"' (cs.length + 1) c cs
+        let (body, after) := scanQ '"' false (cs.length + 1) cs
         let orig := c :: body
         maskLoop n (lastOr prev orig) after (st.pushIdent orig)
       else maskLoop n c cs { st with out := c :: st.out }
@@ -259,8 +288,9 @@ def cteCommaAt (s : Str) : Option (Match × Str) :=
   | ',' :: r => (cteName (eatSpaces0 r)).map fun (a, r2) => (⟨[], a, r2⟩, r2)
   | _ => none
 
-/-- FindAll: leftmost, non-overlapping. `tryAt wordStart s`. -/
-def findAllLoop (tryAt : Bool → Str → Option (Match × Str)) : Nat → Char → Str → List Match
+/-- FindAll: leftmost, non-overlapping. `tryAt wordStart s`. Each match comes with the length of the text
+that was still ahead at its start (so that start offset = total length - that). -/
+def findAllLoopS (tryAt : Bool → Str → Option (Match × Str)) : Nat → Char → Str → List (Nat × Match)
   | 0, _, _ => []
   | _, _, [] => []
   | n + 1, prev, c :: cs =>
@@ -269,9 +299,16 @@ def findAllLoop (tryAt : Bool → Str → Option (Match × Str)) : Nat → Char 
     | some (m, after) =>
       if after.length < (c :: cs).length then
         let consumed := (c :: cs).take ((c :: cs).length - after.length)
-        m :: findAllLoop tryAt n (lastOr c consumed) after
-      else m :: findAllLoop tryAt n c cs
-    | none => findAllLoop tryAt n c cs
+        ((c :: cs).length, m) :: findAllLoopS tryAt n (lastOr c consumed) after
+      else ((c :: cs).length, m) :: findAllLoopS tryAt n c cs
+    | none => findAllLoopS tryAt n c cs
+
+def findAllLoop (tryAt : Bool → Str → Option (Match × Str)) (n : Nat) (prev : Char) (s : Str) : List Match :=
+  (findAllLoopS tryAt n prev s).map (·.2)
+
+/-- `patternSimpleTable.FindAllStringIndex`: start offsets -/
+def strSimpleStarts (t : Str) : List Nat :=
+  (findAllLoopS (fun ws s => if ws then fromAt capSimple s else none) (t.length + 1) '\x00' t).map (fun x => t.length - x.1)
 
 def strFindAll (p : Pat) (t : Str) : List Match :=
   let go (f : Bool → Str → Option (Match × Str)) := findAllLoop f (t.length + 1) '\x00' t
@@ -288,7 +325,8 @@ def strFindAll (p : Pat) (t : Str) : List Match :=
 /-- the executable world. `splice` is never inspected by the permission side; the rewrite side of the
 string level is only used on the header fast path (see Props), so it is the identity here. -/
 def strWorld : World :=
-  { findAll := strFindAll, splice := fun _ t _ => t, normP := strNorm, prepass := id, lower := lowerAscii }
+  { findAll := strFindAll, splice := fun _ t _ => t, normP := strNorm, prepass := id, lower := lowerAscii,
+    simpleStarts := strSimpleStarts }
 
 /-! ## ValidateSQLRequest -/
 
@@ -335,13 +373,15 @@ def dangerous : List WTok → Bool
     || ((isW "create" t || isW "drop" t) && secretAhead r)
     || dangerous r
 
+/-- `(?:\s|[^\x00-\x7F])*\(` after the name (c63798f) -/
+def parenAfterBlanks : List WTok → Bool
+  | .o c :: r => c == '(' || (c.toNat ≥ 128 && parenAfterBlanks r)
+  | .sp :: r => parenAfterBlanks r
+  | _ => false
+
 def deniedCall : List WTok → Bool
   | [] => false
-  | .w s :: r =>
-    (denylist.contains (lowerAscii s) && (match r with
-      | .o '(' :: _ => true
-      | .sp :: .o '(' :: _ => true
-      | _ => false)) || deniedCall r
+  | .w s :: r => (denylist.contains (lowerAscii s) && parenAfterBlanks r) || deniedCall r
   | _ :: r => deniedCall r
 
 /-- `__(?:STR|IDENT)_\d+__` at the head: the placeholder text -/
@@ -399,6 +439,11 @@ def tablePosFirst (flag : Str → Bool) : List Str → List Bool → Bool → Op
 def tablePos (flag : Str → Bool) (toks : List Str) (armed : List Bool) (after : Bool) : Bool :=
   (tablePosFirst flag toks armed after).isSome
 
+/-- replace every identifier placeholder whose unquoted name is a non-empty run of word bytes by that name -/
+def exposeIdents (I : Idents) (t : Str) : Str :=
+  I.foldl (fun acc (ph, name) =>
+    if !name.isEmpty && name.all isWordC then replaceAll ph name (acc.length + 1) acc else acc) t
+
 def trimRightSet (set : Str) (s : Str) : Str := (s.reverse.dropWhile (fun c => set.contains c)).reverse
 
 def isGoSpace (c : Char) : Bool := c == ' ' || c == '\t' || c == '\n' || c == '\x0b' || c == '\x0c' || c == '\r'
@@ -413,8 +458,8 @@ def validate (s : Str) : Verdict :=
     if (trimRightSet " \t\n\r;".toList normalised).contains ';' then .multi
     else if dangerous (wtoks (normalised.length + 1) normalised) then .danger
     else
-      let stripped := s.filter (fun c => c != '"' && c != '`')
-      let ioN := stripComments (maskLits stripped).1
+      -- ioDenylistNormalise (e3b9b4d): mask first, then put back the quoted names that are plain identifiers
+      let ioN := stripComments (exposeIdents (identNames ms) mt)
       if deniedCall (wtoks (ioN.length + 1) ioN) then .io
       else if tablePos (fun t => "__STR_".toList.isPrefixOf t) (tpToks (ioN.length + 1) ioN [] []) [false] false then .strtab
       else
@@ -460,53 +505,30 @@ def hasCross (s : Str) : Bool :=
 
 /-! ## the decidable lexical class K (what C14_partial is stated on) -/
 
-/-- a quote-like byte -/
-def isQuoteC (c : Char) : Bool := c == '\'' || c == '"' || c == '`' || c == '$'
-
-/-- some comment (as the non-nesting stripper delimits it on the RAW text) contains a quote-like byte,
-or a block comment is nested, i.e. the stripper and DuckDB may disagree about comment extents -/
+/-- a block comment is nested or unterminated: the (non-nesting) stripper and DuckDB delimit it differently
+(the stripper then shows the validators MORE text than DuckDB executes - the safe direction) -/
 def commentHazard : Nat → Str → Bool
   | 0, _ => false
   | _, [] => false
   | n + 1, c :: cs =>
-    if c == '-' && headIs '-' cs then
-      let body := cs.takeWhile (· != '\n')
-      body.any isQuoteC || commentHazard n (cs.dropWhile (· != '\n'))
+    if c == '-' && headIs '-' cs then commentHazard n (cs.dropWhile (· != '\n'))
     else if c == '/' && headIs '*' cs then
       match splitAt? "*/".toList [] (cs.drop 1) with
-      | some (body, after) => body.any isQuoteC || containsSub "/*".toList body || commentHazard n after
+      | some (body, after) => containsSub "/*".toList body || commentHazard n after
       | none => true
     else commentHazard n cs
 
-def backslashBeforeQuote : Str → Bool
-  | '\\' :: c :: r => isQuoteC c || backslashBeforeQuote (c :: r)
-  | _ :: r => backslashBeforeQuote r
-  | [] => false
-
-def hasPlaceholderLookalike : Nat → Str → Bool
-  | 0, _ => false
-  | _, [] => false
-  | n + 1, c :: cs =>
-    "__STR_".toList.isPrefixOf (c :: cs) || "__IDENT_".toList.isPrefixOf (c :: cs) || "__FROM_MASK_".toList.isPrefixOf (c :: cs)
-      || hasPlaceholderLookalike n cs
-
-/-- identifier followed by blanks containing a line break and then `(` -/
+/-- identifier followed by blanks containing a line break and then `(` (the two look-aheads still differ) -/
 def callAfterNewline (s : Str) : Bool :=
   (strFindAll .simple (strNorm s).text ++ strFindAll .joinSimple (strNorm s).text).any
     (fun m => callAtX m.rest && !(dotOrCallAtR m.rest))
 
-/-- quote / comment markers hidden inside a quoted token (`"/*"`, `'--'`): the identifier-quote
-stripping of `ioDenylistNormalise` turns them live -/
-def markerInQuotedIdent (s : Str) : Bool :=
-  ((maskLits (s.map (fun c => if c == '`' then '"' else c))).2.filter (·.ident)).any
-    (fun m => containsSub "--".toList m.orig || containsSub "/*".toList m.orig || m.orig.any (fun c => c == '\'' || c == '$'))
-
-def inK (s hdr : Str) : Bool :=
-  s.all (fun c => c.toNat < 128 && (c.toNat ≥ 32 || c == '\n' || c == '\t' || c == '\r')) &&
-  !(backslashBeforeQuote s) && !(commentHazard (s.length + 1) s) && !(hasPlaceholderLookalike (s.length + 1) s) &&
-  !(markerInQuotedIdent s) && !(callAfterNewline s) &&
-  !(Arc.Generated.C14.prepassTriggers.any (fun w => containsSub w.toList (lowerAscii s))) &&
-  (hdr.isEmpty ||
-    (!(fastPathTaken strWorld s) && cteNamesHdr strWorld (strNorm s).text == cteNames strWorld (strNorm s).text))
+/-- The decidable lexical class of `C14_partial` AFTER the round-2 repairs (/repo 64dff5c). The carve-outs for
+backslash-before-quote, quotes in comments, markers in quoted identifiers, placeholder look-alikes, non-ASCII
+bytes, the header fast path and the `with ` gate are GONE (those classes are repaired; their monitors stay
+armed). What remains: comment extents (above), the look-ahead near-miss, and the pre-pass triggers. -/
+def inK (s _hdr : Str) : Bool :=
+  !(commentHazard (s.length + 1) (maskLits s).1) && !(callAfterNewline s) &&
+  !(Arc.Generated.C14.prepassTriggers.any (fun w => containsSub w.toList (lowerAscii s)))
 
 end Arc.C14
